@@ -15,4 +15,6 @@ void vp_observe(uint64_t v);                             // folded into the diff
 int vp_is_symbolic(void);
 int vp_fork_int(int v);                                   // engine: fork on every feasible value and continue with it concrete; native: identity
 }
+// grid double whose index is forked to a concrete value by the solver (every grid point is covered by its own path; no guarded-set arithmetic)
+static inline double vp_double_grid_forked(const char* name, double lo, double step, int count) { return lo + (double)vp_fork_int(vp_int(name, 0, count - 1)) * step; }
 static inline bool vp_bool(const char* name) { return vp_int(name, 0, 1) != 0; }
